@@ -492,3 +492,10 @@ def extra_evidence(tier: str) -> typing.Dict[str, typing.Any]:
 
 
 _ = copy
+
+
+def lemmas(tier: str, seed: int) -> typing.List[typing.Dict[str, typing.Any]]:
+    """E3: SMT obligations over the AST -> SMT encoding of the bit kernels (vp/pz.py, vp/pz_obl.py)."""
+    from .. import pz_obl
+
+    return pz_obl.run(tier, seed, want=("W", "A"))
